@@ -81,19 +81,26 @@ CHECKS = {
         technique="Coq proof (Permutation/NoDup reasoning over any shuffle, Q arithmetic for units, real analysis for the metrics) on a model whose unit table is translated from the source + vm_compute correspondence",
         design="5/C06"),
     "C10": dict(
-        text=("Theorems (closed under the global context) about the transition system of imap (Submit / Complete i / Yield over a "
-              "FIFO deque bounded by max_workers), quantified over EVERY trace the system accepts, i.e. every relative timing: "
-              "invariant on all reachable states, yielded files always a prefix of the stream, final output = values in find() "
-              "order up to the first exception, never more than max_workers unconsumed tasks, every file submitted / consumed / "
-              "completed at most once, progress and termination (<= 3n actions), exception propagation after all earlier results, "
-              "only read errors under error_to_warning become warning + None for that file; map = the same system with an "
-              "unbounded queue; collect drops None contents in order; the align loop loads each unique secondary once in order of "
-              "first appearance, delivers every matched pair and evicts after the last use. Tie: the real FileSet.map / imap / "
-              "collect / icollect / align run with FORCED completion orders (tasks gated by events, executors replaced by logging "
-              "subclasses); Coq checks that each recorded trace is accepted by the model and evaluates the specification."),
-        note=COMMON_NOTE + " concurrent.futures / threading / multiprocessing are modelled by the transition system (hypothesis), exercised by forced "
-             "schedules, not verified; real OS scheduling cannot be exhibited by the model.",
-        technique="Coq proof (invariant by induction over arbitrary action traces of a transition system) + trace-acceptance correspondence under forced schedules",
+        text=("23 theorems (closed under the global context) about an executable transition system of imap (Submit / Complete i / "
+              "Yield over a FIFO deque bounded by max_workers), quantified over EVERY trace the system accepts, i.e. every relative "
+              "timing, worker count and result pattern: invariant on all reachable states, yielded files always a prefix of the "
+              "stream and equal to the specification at termination, at most max_workers futures queued, the submitted tasks never "
+              "exceed the yielded results by more than max_workers and file k is only submitted after file k-w was yielded "
+              "(imap_lazy, imap_submit_waits_for_consumer), exactly-once, progress and termination (<= 3n actions), propagation of "
+              "the first exception after all earlier results, only read errors under error_to_warning become warning + None; map = "
+              "the same system with an unbounded queue; collect drops None contents in order; the align loop loads each unique "
+              "secondary once in order of first appearance, delivers every matched pair and evicts after the last use. Bundles read "
+              "through the nested collect have an explicit model (bundle_task_result, bundle_refines_task, "
+              "bundle_collect_any_member_order, bundle_read_warning_local): a bundle is warning + None iff error_to_warning and a "
+              "member is unreadable (or nothing is left to hand on), otherwise the function applied to the members' contents in "
+              "member order, independent of the completion order of the member reads. Tie: the real FileSet.map / imap / collect / "
+              "icollect / align with FORCED completion orders (all orders for <= 4 files quick / <= 6 thorough, failing readers on "
+              "every subset, None contents, all member patterns and member orders of 2-3-file bundles); Coq checks that each recorded "
+              "trace is accepted by the model and evaluates the specification, results and function arguments must equal it; the "
+              "thorough tier repeats this on process pools through a multiprocessing.Manager."),
+        note=COMMON_NOTE + " concurrent.futures / threading / multiprocessing (fork, pickling) are modelled by the transition system (hypothesis), exercised by forced "
+             "schedules, not verified; real OS scheduling cannot be exhibited by the model; warnings raised on process pools are not counted.",
+        technique="Coq proof (invariants by induction over arbitrary action traces of a transition system; explicit bundle model refining the task model) + trace-acceptance correspondence under forced schedules, thread and process pools",
         design="5/C10"),
     "C12": dict(
         text=("Theorems (closed under the global context) about an executable model of compress / compress_as / decompress as a "
@@ -161,21 +168,26 @@ CHECKS = {
         technique="Coq proof (Z/Q arithmetic with lia, computation on the translated table lifted by lemmas) + vm_compute correspondence on synthetic tiles",
         design="5/C20"),
     "C05": dict(
-        text=("Theorems (closed under the global context) about the model of collocate_filesets - find, the C03 file matching with "
+        text=("22 theorems (closed under the global context) about the model of collocate_filesets - find, the C03 file matching with "
               "coverages floored to seconds and widened by max_interval, array_split over the workers, the per-worker bundling "
-              "state machine with final flush, and a transition system of the bounded result queue: union_over_matches / "
+              "state machine with final flush - and about a transition system of the bounded result queue: union_over_matches / "
               "pipeline_exact - the collocations emitted over all workers and bundles are exactly collocate(all data of A, all data "
               "of B), each once, for EVERY process count, bundle mode and split of the data into files; an unreadable file removes "
-              "exactly its own pairs; bundling is lossless; the queue yields exactly what was put under EVERY interleaving "
-              "(queue_exactly_once, queue_bounded, parent never stuck), with the weaker code (no final drain / flush) refuted. "
-              "Collocator.collocate (C04) enters as a Section variable assumed exact, FileSet.find by its specification. Output to a "
-              "fileset is lossless only under pairwise distinct rendered names; same_name_overwrites refutes it otherwise (open "
-              "finding F-C05-3, printed as KNOWN-FINDING). Tie: end-to-end runs of collocate_filesets / Collocations.search with 1-4 "
-              "processes and a pickle handler, compared with the specification evaluated in Coq (independent long-double chord "
-              "oracle), logged queue histories replayed in the queue model."),
-        note=COMMON_NOTE + " multiprocessing.Queue (a dead worker has nothing in flight), real OS scheduling, pickling and killed workers are outside the model; "
+              "exactly its own pairs; bundling is lossless. The queue over ALL interleavings: at parent exit exactly what was put "
+              "has been yielded (queue_exactly_once), the queue is bounded, from every reachable state an explicit scheduler reaches "
+              "the exit within the measure mu <= 20 #items + 5 #workers + 3 (queue_liveness, queue_no_deadlock), any run holds at "
+              "most 3 #items + #workers + 1 non-polling actions; the final drain is characterised exactly (drain_needed: a parent "
+              "without it loses precisely what is visible in the queue at the snapshot that saw the last worker dead, and such a "
+              "run exists for every non-empty workload), the one-get-per-pass parent loses results with two slots but never with "
+              "one. Collocator.collocate (C04) enters as a Section variable assumed exact, FileSet.find by its specification. Output "
+              "to a fileset is lossless only under pairwise distinct rendered names; same_name_overwrites refutes it otherwise "
+              "(open finding F-C05-3, printed as KNOWN-FINDING). Tie: end-to-end runs of collocate_filesets / Collocations.search "
+              "with 1-4 processes and a pickle handler, compared with the specification evaluated in Coq (independent long-double "
+              "chord oracle), logged queue histories replayed in the queue model, including runs with a caller that pauses after "
+              "every yielded dataset and runs in which the parent is held up between empty() and its snapshot."),
+        note=COMMON_NOTE + " multiprocessing.Queue (a dead worker has nothing in flight), fair termination, real OS scheduling, pickling and killed workers are outside the model; "
              "the queue bound is a theorem of the model only.",
-        technique="Coq proof (NoDup/Permutation refinement to the brute-force collocation; invariants of the bundling loop and of a queue transition system over all interleavings) + end-to-end differential runs with queue traces evaluated in Coq",
+        technique="Coq proof (NoDup/Permutation refinement to the brute-force collocation; invariants of the bundling loop; queue transition system over all interleavings with liveness by an explicit scheduler and a decreasing measure, exact characterisation of weaker parents) + end-to-end differential runs with schedule perturbations and queue traces evaluated in Coq",
         design="5/C05"),
     "C11": dict(
         text=("Theorems (closed under the global context) about an executable model of FileSet write / read / collect / find / move / "
